@@ -125,9 +125,10 @@ add('C11', 'proof', 'Lean 4 theorems (interchange law, associativity, sweep = me
     'The pairwise cell and the ladder step are modelled as compositions of 4-leg tensors; the interchange law, associativity '
     'of the cell, ladder-of-pairwise, and hence: left-to-right sweep = right-to-left sweep = every split-and-recombine = '
     'transposed network = the merged grid tensor, are Lean theorems over any commutative semiring for all network shapes and '
-    'compatible bond dimensions; the executed array model is bridged to the algebra entry-wise; no-op truncation settings are '
-    'the identity; the error cases raise. The last link (merged grid tensor = literal sum over all bond-index assignments) is '
-    'stated but not proved — the brute-force sum is instead compared with the real contraction on every run. Tied to the '
+    'compatible bond dimensions; the executed array model is bridged to the algebra entry-wise; the literal sum over all '
+    'bond-index assignments (exactValue) is proved equal to the merged grid tensor, so contract_lr_exact / rl_exact / '
+    'transpose_exact / split hold against exactValue, also for None-padded columns; no-op truncation settings (incl. chi >= '
+    'every bond that occurs) are the identity; the error cases raise — 26 theorems. Tied to the '
     'code by exact integer networks (numpy stays in integers) through every start/stop/step, split point and transpose.',
     TB + 'Modelled rather than verified: tensortools/mps2d.py contract/transpose, mps.py contract_pairwise/contract_ladder/'
     'inner_product/truncate guard, tsr.py as_scalar. The truncating SVD path is outside the property.')
@@ -152,18 +153,19 @@ add('C14', 'proof', 'Lean 4 theorems about the naive decoder (min weight, correc
     'real decoders, verdict confirmed by the Lean driver and a span certificate.',
     TB + 'networkx matching inside the decoders is not modelled (see C13).')
 
-add('C08', 'other', 'Lean-verified exhaustive CSS-split search (soundness + CSS-completeness theorems) run on the real matrices; all-sizes theorems for attainment and logical weights; kernel-evaluated IsDistance for small sizes',
-    'Theorems (26): the CSS split (the X- or Z-part of any non-trivial logical of a CSS code is itself one, of no larger '
-    'weight), soundness and completeness of the executable search (none => no Pauli of weight < d is a non-trivial logical), '
-    'certificate soundness, closed-form weights of every supplied logical and attainment of d for all sizes of all five '
-    'families (C07 commutation/pairing as hypotheses), IsDistance for the five-qubit and Steane codes and for the smallest '
-    'lattices by kernel evaluation. The lower bound "no lighter logical" for a general size is NOT a theorem (the '
-    'disjoint-translates argument is stated only): it is decided per size by running the verified search through the '
-    'compiled driver on the REAL stabilizer / logical matrices (with a stabilizer-derived basis of N(S)/S, so a missing '
-    'generator is detected too) and by an independent numpy search on larger sizes — exhaustive per code size, recorded in '
-    'the evidence; n_k_d is compared with the model for all sizes up to the bound incl. rectangles.',
-    TB + 'The distance lower bound for sizes beyond the searched ones is not established; normaliser completeness is a '
-    'hypothesis of the span-form corollary.')
+add('C08', 'proof', 'Lean 4 theorems: IsDistance (min R C) for ALL sizes of the planar, toric, rotated-planar and rotated-toric families (lower bound by strip-parity / disjoint translates), basic codes by kernel evaluation; verified CSS-split search on the real matrices for colour 6.6.6',
+    'Theorems (34): for every size of the planar, toric (all four logicals), rotated-planar and rotated-toric families, every '
+    'operator that commutes with all stabilizers and anticommutes with some logical has weight >= min(R,C) (commutation '
+    'with the generators of one strip forces equal parity on neighbouring translates of the logical, so the operator meets '
+    'R resp. C pairwise disjoint supports), the lighter supplied logical attains it, hence IsDistance with d = n_k_d[2] with '
+    'no hypotheses left (C07 facts discharged); IsDistance for the five-qubit and Steane codes and the smallest lattices by '
+    'kernel evaluation; the CSS split, soundness/completeness of the executable search and certificate soundness for any '
+    'matrices; closed-form logical weights for all five families. "Non-trivial logical" = "anticommutes with some logical" '
+    'is equivalent to "not a product of stabilizers" by normaliser completeness, proved for every ValidCode. For colour '
+    '6.6.6 the lower bound is NOT a theorem beyond size 3: it is decided per size by running the verified search through '
+    'the compiled driver on the REAL matrices (with a stabilizer-derived basis of N(S)/S) and an independent numpy search. '
+    'n_k_d is compared with the model for all sizes up to the bound incl. rectangles and strips.',
+    TB + 'Colour 6.6.6 distance beyond the searched sizes is not established.')
 add('C10', 'proof', 'Lean 4 theorems about the coset-probability specification (partition, sample independence, ML optimality) + exact-rational vs float comparison of every coset probability of the real decoders',
     'Spec side proved for any code satisfying a named CodeSpec (independent generators, commutation, normaliser = <S,L>): the '
     'span enumeration is exact and duplicate-free, the syndrome class is the disjoint union of the 4^k cosets so coset '
